@@ -296,6 +296,11 @@ func genC02(tier string, r *rng) {
 				emitKey(keyCase{"sshpub", "id_ecdsa.pub", []byte(line + "\n"), "ecdsa", name, "ec@host", []string{"Type=" + sp.Type()}, nil, "go " + name, "SSH public key"})
 				emitKey(keyCase{"ppk3", "k.ppk", ppkText(3, sp.Type(), "none", "ec key", sp.Marshal(), sshMPInt(k.D), nil), "ecdsa", name, "ec key",
 					[]string{"Type=" + sp.Type(), "Encryption=none"}, sec, "go " + name, "puTTY private key (version 3)"})
+				// the same key in an OpenPGP public key block (own writer, self-signed user id)
+				{
+					pb := buildPGP(newECDSAKey(1700000000, k), []pgpIdentity{{name: "ec <ec@x>", flags: 3, sigCreated: 1700000000, lifetime: -1}}, nil, false)
+					emitKey(keyCase{"pgp", "k.asc", pgpArmor("PGP PUBLIC KEY BLOCK", pb.binary), "ecdsa", name, "", nil, nil, "go " + name, "GPG/PGP public key"})
+				}
 				for _, pass := range []string{"", "secret"} {
 					var blk *pem.Block
 					var err error
@@ -326,6 +331,22 @@ func genC02(tier string, r *rng) {
 		line := strings.TrimSpace(string(ssh.MarshalAuthorizedKey(sp)))
 		emitKey(keyCase{"sshpub", "id_ed25519.pub", []byte(line + " me@box\n"), "ed25519", "", "me@box", []string{"Type=ssh-ed25519"}, nil, "ed25519", "SSH public key"})
 		emitKey(keyCase{"sshpub", "id_ed25519.pub", []byte(line), "ed25519", "", "", []string{"Type=ssh-ed25519"}, nil, "ed25519", "SSH public key"})
+		{
+			pb := buildPGP(newEdDSAKey(1700000000, edPriv), []pgpIdentity{{name: "ed <ed@x>", flags: 3, sigCreated: 1700000000, lifetime: -1}}, nil, false)
+			emitKey(keyCase{"pgp", "k.asc", pgpArmor("PGP PUBLIC KEY BLOCK", pb.binary), "ed25519", "", "", nil, nil, "ed25519", "GPG/PGP public key"})
+		}
+		for _, rb := range []int{1023, 2047} {
+			rk, err := rsa.GenerateKey(rand.Reader, rb)
+			if err != nil {
+				continue
+			}
+			nhex := fmt.Sprintf("%x", rk.N)
+			if len(nhex)%2 == 1 {
+				nhex = "0" + nhex
+			}
+			pb := buildPGP(newRSAKey(1700000000, rk), []pgpIdentity{{name: "rsa <r@x>", flags: 3, sigCreated: 1700000000, lifetime: -1}}, nil, false)
+			emitKey(keyCase{"pgp", "k.asc", pgpArmor("PGP PUBLIC KEY BLOCK", pb.binary), "rsa", nhex, "", nil, nil, "rsa " + nhex, "GPG/PGP public key"})
+		}
 		for _, pass := range []string{"", "pw"} {
 			meta := []string{"Type=ssh-ed25519"}
 			desc := "OpenSSH private key"
